@@ -83,13 +83,28 @@ def run(tier, seed):
     for _ in range(2000 if th else 80):
         ds, r, tag = rrgen.shift_case(rnd, freqs=rnd.choice([('YEARLY', 'MONTHLY'), ('WEEKLY', 'DAILY')]), inter1=False)
         allc.append((ds, r, tag, 70, (2098, 12, 31)))
+    # the same rules as the daemon gets them: written out by the serialiser (echse merge, the writer echsq and the checkpoints use)
+    # and read back, before anything is expanded.  Zero shifts (0B, -0B, 0B+, 0B-) from a DTSTART on a working day, so that the
+    # DTSTART written is the DTSTART given and the rule read back has to be the rule given
+    nser = 0
+    for _ in range(600 if th else 80):
+        r = rrgen.blank('MONTHLY'); y = rnd.randint(1990, 2030); mo = rnd.randint(1, 12); dd = rnd.randint(1, 28)
+        while calendar.weekday(y, mo, dd) >= 5: dd = dd % 28 + 1
+        r['md'] = sorted({dd, rnd.choice([1, 6, 13, 20, 27, 28])}); r['shift_text'], r['shift'] = rrgen.shift_variant(rnd, 'z')
+        ds = (y, mo, dd) if rnd.random() < 0.6 else (y, mo, dd, 9, 30, 0)
+        allc.append((ds, r, 'serialised-zero', 70, (2098, 12, 31))); nser += 1
     cases = []
     for f in vlib.load_findings(PID):
         w = f.get('witness')
         if w: allc.insert(0, (tuple(w['ds']), w['rule'], 'witness:' + f['id'], w.get('maxpop', 70), (2098, 12, 31)))
     for k, (ds, r, tag, maxpop, hz) in enumerate(allc):
         rt = rrgen.rule_text(r)
-        cases.append({'uid': 's%d' % k, 'ds': rrgen.inst(ds), 'rule': rrgen.spec_rule(r), 'tag': tag, 'rtext': rt, 'ics': rrgen.event_ics('s%d' % k, ds, [rt]), 'maxpop': maxpop, 'hz': hz, 'mode': rnd.choice('np')})
+        ics = rrgen.event_ics('s%d' % k, ds, [rt])
+        if tag == 'serialised-zero':
+            import subprocess
+            pm = subprocess.run([f'{B}/echse', 'merge'], input=ics, capture_output=True, text=True, timeout=30)
+            ics = pm.stdout if pm.returncode == 0 and 'BEGIN:VEVENT' in pm.stdout else 'BEGIN:VCALENDAR\nEND:VCALENDAR\n'      # nothing written: the case ends as "no event"
+        cases.append({'uid': 's%d' % k, 'ds': rrgen.inst(ds), 'rule': rrgen.spec_rule(r), 'tag': tag, 'rtext': rt, 'ics': ics, 'maxpop': maxpop, 'hz': hz, 'mode': rnd.choice('np')})
     import concurrent.futures as cf
     nsl = vlib.NCPU; per = -(-len(cases) // nsl)
     with cf.ThreadPoolExecutor(max_workers=nsl) as ex:
